@@ -18,14 +18,15 @@ def _install_z3_counter():
     import z3
     calls = {'n': 0, 't': 0.0}
     orig = z3.Solver.check
+    pc = time.perf_counter          # not modelled by CrossHair (time.time/monotonic/process_time are)
 
     def check(self, *a):
-        t = time.time()
+        t = pc()
         try:
             return orig(self, *a)
         finally:
             calls['n'] += 1
-            calls['t'] += time.time() - t
+            calls['t'] += pc() - t
     z3.Solver.check = check
     return calls
 
@@ -40,9 +41,9 @@ def analyse(fn, timeout, path_timeout):
     if path_timeout:
         kw['per_path_timeout'] = float(path_timeout)
     opts = AnalysisOptionSet(**kw)
-    t0 = time.time()
+    t0 = time.perf_counter()
     msgs = run_checkables(analyze_function(fn, opts))
-    return msgs, dict(stats), time.time() - t0
+    return msgs, dict(stats), time.perf_counter() - t0
 
 
 def classify(msgs):
